@@ -47,7 +47,18 @@ def writer_frames(fmt, rng, n):
         elif r < 0.5:
             o.title = "END of story MODEL 2"  # looks like a record name
         objs.append(o)
-    return objs
+        # the next frame may be the same molecule with only some values changed (another resonance structure, another charge model):
+        # same atoms, same bonded pairs, other bond types / charges / title
+        if i + 1 < n and natom >= 2 and rng.random() < 0.35 and getattr(o, "bonds", None) is not None and len(o.bonds):
+            import copy
+            o2 = copy.deepcopy(o)
+            b = np.array(o2.bonds)
+            b[:, 2] = [[1, 2, 3][(int(t) + 1 + k) % 3] for k, t in enumerate(b[:, 2])]
+            o2.bonds = b
+            if o2.atcharges:
+                o2.atcharges = {k: np.asarray(v) + 0.125 for k, v in o2.atcharges.items()}
+            objs.append(o2)
+    return objs[:n]
 
 
 def render_gro(rng, n):
